@@ -790,6 +790,13 @@ def _value(ex, e, res, depth):
             if t is not None and H.const_value(t) is None:
                 return _value(ex, t, res, depth + 1)
         return
+    if k == "match":
+        # the same choice spelled as a match: `match labels.get(l) { Some(t) => f(t), None => placeholder }`
+        for a in e["arms"]:
+            t = _tail_expr(a["body"])
+            if t is not None and H.const_value(t) is None and not (H.diverges(a["body"]) or H.is_err_exit(a["body"])):
+                return _value(ex, t, res, depth + 1)
+        return
     if k == "call":
         nm = H.callee_name(e)
         if nm == "compute_signed_offset":
